@@ -384,7 +384,7 @@ package plugin
 //@   assigns everything
 //@   ensures E1 [C13,C17]: result == nil && p.Addrs != nil && p.TimeNow != nil && isClosure(p.Addrs, "plugin.(*Prefix).Prepare$1")
 //@   ensures E3 [C16]: isFunc(p.TimeNow, "time.Now")
-//@   ensures E2 [C13]: p.Prefix == old(p.Prefix) && p.Auto == old(p.Auto) && p.OnLink == old(p.OnLink) && p.Autonomous == old(p.Autonomous) && p.ValidLifetime == old(p.ValidLifetime) && p.PreferredLifetime == old(p.PreferredLifetime) && p.Deprecated == old(p.Deprecated) && p.Epoch == old(p.Epoch)
+//@   ensures E2 [C13,C16,C01]: p.Prefix == old(p.Prefix) && p.Auto == old(p.Auto) && p.OnLink == old(p.OnLink) && p.Autonomous == old(p.Autonomous) && p.ValidLifetime == old(p.ValidLifetime) && p.PreferredLifetime == old(p.PreferredLifetime) && p.Deprecated == old(p.Deprecated) && p.Epoch == old(p.Epoch)
 
 //@ func (*RDNSS).Prepare$1
 //@   ghost local listed Bool
@@ -409,7 +409,7 @@ package plugin
 //@   assigns everything
 //@   ensures E1 [C15,C17]: result == nil && r.Routes != nil && r.TimeNow != nil
 //@   ensures E3 [C16]: isFunc(r.TimeNow, "time.Now")
-//@   ensures E2 [C15]: r.Prefix == old(r.Prefix) && r.Auto == old(r.Auto) && r.Preference == old(r.Preference) && r.Lifetime == old(r.Lifetime) && r.Deprecated == old(r.Deprecated) && r.Epoch == old(r.Epoch)
+//@   ensures E2 [C15,C16,C01]: r.Prefix == old(r.Prefix) && r.Auto == old(r.Auto) && r.Preference == old(r.Preference) && r.Lifetime == old(r.Lifetime) && r.Deprecated == old(r.Deprecated) && r.Epoch == old(r.Epoch)
 
 //@ func (*LLA).Prepare
 //@   opt refines iface:plugin.Plugin.Prepare
